@@ -96,13 +96,14 @@ def obligations(tier: str):
     obls.append({"id": "unit.reach", "func": "h_reach", "timeout": 60, "expect": "refuted"})
     for j, (pre, suf) in enumerate(holes.hole_instances(SEEDS)):
         obls.append(holes.obligation("seed%04d.k1" % j, pre, suf, 1, "position", 120))
-        if tier == "thorough":
-            obls.append(holes.obligation("seed%04d.k2" % j, pre, suf, 2, "position", 900))
+        if tier == "thorough" and j % 3 == 0:
+            obls.append(holes.obligation("seed%04d.k2" % j, pre, suf, 2, "position", 600))
     for j, (pre, suf) in enumerate(holes.hole_instances(BAD_SEEDS, replace=(0,))):
         obls.append(holes.obligation("bad%04d.b1" % j, pre, suf, 1, "position", 120, alphabet=BLANKS))
         obls.append(holes.obligation("bad%04d.b2" % j, pre, suf, 2, "position", 300, alphabet=BLANKS))
         if tier == "thorough":
-            obls.append(holes.obligation("bad%04d.b3" % j, pre, suf, 3, "position", 900, alphabet=BLANKS))
+            if j % 2 == 0:
+                obls.append(holes.obligation("bad%04d.b3" % j, pre, suf, 3, "position", 600, alphabet=BLANKS))
     for j, (pre, suf) in enumerate(holes.hole_instances(BAD_SEEDS, replace=(1,))):
         obls.append(holes.obligation("bad%04d.k1" % j, pre, suf, 1, "position", 120))
     return obls
